@@ -57,11 +57,54 @@ static void read_and_compare(const std::string &path, const std::string &text, c
   VF_CHECK(d.empty(), "kv-changed", which << ": " << d << "\nfile='" << esc(text) << "'\nobserved:\n" << sh);
 }
 
+// kv of an object as comparable text (sections, key listing, values; NULL == "")
+static std::string kv_text(const Observed &o) {
+  std::string r;
+  for (auto &g : o.groups) r += "<" + g + ">";
+  r += "\n";
+  for (auto &sk : o.keys)
+    for (auto &k : sk.second) {
+      auto it = o.vals.find({sk.first, k});
+      r += "[" + sk.first + "]" + k + "=" + (it != o.vals.end() && it->second ? *it->second : std::string()) + "\n";
+    }
+  return r + o.error;
+}
+
+// read `text` with a parsing option set (1 JOIN_SAME_ENTRIES, 2 PYTHON_STYLE, 3 both) through econf_readConfig
+static std::string read_with_option(const std::string &text, const GFile &f, int opt, const char *which) {
+  write_file(g_scr.dir + "/vfc.conf", text);
+  std::string os = "PARSING_DIRS=" + g_scr.dir;
+  if (opt & 1) os += ";JOIN_SAME_ENTRIES=1";
+  if (opt & 2) os += ";PYTHON_STYLE=1";
+  econf_file *kf = nullptr;
+  econf_err e = econf_newKeyFile_with_options(&kf, os.c_str());
+  VF_CHECK(e == ECONF_SUCCESS && kf, "harness", "options object");
+  e = econf_readConfig(&kf, nullptr, nullptr, "vfc", "conf", f.D.c_str(), f.C.c_str());
+  if (e != ECONF_SUCCESS) {
+    if (kf) econf_freeFile(kf);
+    VF_FAIL("read-failed", which << " (option set " << opt << "): rc=" << e << " (" << econf_errString(e) << ")\nfile='" << esc(text) << "'");
+  }
+  std::string r = kv_text(observe(kf));
+  econf_freeFile(kf);
+  return r;
+}
+
 static void run(Src &s) {
   GOpts o;
   o.cont = false;       // single-line values only (the property's domain)
   o.blankonly = false;  // deleting comment lines must not create "entry, blank-only line" (outside the grammar)
   o.max_lines = 24;
+  // option variant: the relation must also hold under JOIN_SAME_ENTRIES / PYTHON_STYLE. Under PYTHON_STYLE an
+  // indented line continues the entry above it, so F itself is kept in column 0 there (inserted comment lines
+  // may be indented: they are comments, not continuations)
+  int optset = s.chance(30) ? 1 + (int)s.below(3) : 0;
+  if (optset) {
+    o.allowed_di = {0, 1};
+    o.indent_entries = false;
+    o.indent_comments = false;
+    o.indent_headers = false;
+    if (optset & 2) o.header_trail = false;  // under PYTHON_STYLE text after a value/header is not a comment
+  }
   GFile f = gen_file(s, o);
   Model m = f.model();
   bool comments_only = f.lines.empty() || s.chance(6);
@@ -152,6 +195,14 @@ static void run(Src &s) {
     }
     Model empty;
     read_and_compare(path, join(only), f, empty, "comments-only file");
+    return;
+  }
+  if (optset) {
+    g_case.tag(optset == 1 ? "opt_join" : optset == 2 ? "opt_python" : "opt_join_python");
+    std::string k0 = read_with_option(t0, f, optset, "F"), k1 = read_with_option(t1, f, optset, "F with inserted comment lines"),
+                k2 = read_with_option(t2, f, optset, "F with its comment lines deleted");
+    VF_CHECK(k0 == k1, "kv-changed", "option set " << optset << ": inserting comment lines changed the configuration\nF:\n" << esc(k0) << "\nF+ins:\n" << esc(k1));
+    VF_CHECK(k0 == k2, "kv-changed", "option set " << optset << ": deleting comment lines changed the configuration\nF:\n" << esc(k0) << "\nF-comments:\n" << esc(k2));
     return;
   }
   read_and_compare(path, t0, f, m, "F");
